@@ -768,9 +768,68 @@ theorem collectFeesIx_ok {c : Ctx} {ok : Bool} {o : CollectOut} (h : collectFees
   subst h
   exact ⟨chk_ok hk, r, hr, rfl, rfl, rfl, rfl⟩
 
+/-- what a successful transfer does to the two slot arrays: the new account holds the old one's positions, the old one none -/
+theorem transferIx_ok {g : GroupV} {a o n : AcctV} {signer newKey newAuth : Nat} {ok : Bool}
+    (h : transferIx g a signer newKey newAuth ok = .ok (o, n)) :
+    o.slots = Transfer.zeroedSlots ∧ n.slots = a.slots ∧ o.key = a.key ∧ n.key = newKey := by
+  unfold transferIx at h
+  cases ht : Transfer.transfer (toMAcct a) a.key g.key g.admin 1 g.paused signer newKey newAuth (if ok = true then 1 else 2) 0 with
+  | error e => rw [ht] at h; cases h
+  | ok r =>
+    rw [ht] at h
+    obtain ⟨ro, rn⟩ := r
+    have h' : (ofMAcct a.key ro, ofMAcct newKey rn) = (o, n) := by
+      have : (Except.ok (ro, rn) : Res _).map (fun (p : Transfer.MAcct × Transfer.MAcct) => (ofMAcct a.key p.1, ofMAcct newKey p.2)) = .ok (o, n) := h
+      injection this
+    injection h' with h1 h2
+    generalize (if ok = true then 1 else 2) = fw at ht
+    unfold Transfer.transfer at ht
+    split at ht; · cases ht
+    split at ht; · cases ht
+    split at ht; · cases ht
+    split at ht; · cases ht
+    split at ht; · cases ht
+    split at ht; · cases ht
+    split at ht; · cases ht
+    split at ht; · cases ht
+    injection ht with ht
+    injection ht with e1 e2
+    subst e1; subst e2; subst h1; subst h2
+    exact ⟨rfl, rfl, rfl, rfl⟩
+
+theorem pos_zeroed (k : Nat) : posA k Transfer.zeroedSlots = 0 ∧ posL k Transfer.zeroedSlots = 0 := by
+  constructor <;> simp [posA, posL, Transfer.zeroedSlots, Account.emptySlot, List.replicate, List.filter]
+
+theorem sum_map_set_append {α : Type} (f : α → Int) (l : List α) (i : Nat) (a a' n : α) (h : l[i]? = some a) :
+    ((l.set i a' ++ [n]).map f).sum = (l.map f).sum - f a + f a' + f n := by
+  rw [List.map_append, List.sum_append, sum_map_set f l i a a' h]
+  simp
+
 theorem step_inv (w : WState) (op : WOp) (hi : WInv w) : WInv (w.step op) := by
   cases op with
   | tick dt => exact ⟨hi.keys, hi.ledgerA, hi.ledgerL⟩
+  | transfer ai signer newKey newAuth ok =>
+    simp only [WState.step]
+    split
+    · exact hi
+    · split
+      · rename_i a ha
+        split
+        · rename_i o n ho
+          obtain ⟨e1, e2, _, _⟩ := transferIx_ok ho
+          refine ⟨hi.keys, ?_, ?_⟩
+          · intro j b hb
+            simp only
+            rw [sum_map_set_append (fun x => posA b.v.key x.slots) w.accts ai a o n ha, e1, e2, (pos_zeroed b.v.key).1]
+            have := hi.ledgerA j b hb
+            omega
+          · intro j b hb
+            simp only
+            rw [sum_map_set_append (fun x => posL b.v.key x.slots) w.accts ai a o n ha, e1, e2, (pos_zeroed b.v.key).2]
+            have := hi.ledgerL j b hb
+            omega
+        · exact hi
+      · exact hi
   | accrue bi =>
     simp only [WState.step]
     split
